@@ -1,6 +1,7 @@
 #!/venv/bin/python
 """Re-run ONLY the registered quick check of each kept seeded change (no demo, no test suite - those were confirmed when the
-change was kept) and refresh the verdict in its meta.json.  usage: recheck_fast.py [--shard i/n] [ID_x ...]"""
+change was kept) and refresh the verdict in its meta.json.  usage: recheck_fast.py [--benign] [--shard i/n] [ID_x ...]
+With --benign the kept property-PRESERVING changes under benign/ are re-run instead (expected verdict: quiet)."""
 import json
 import os
 import shutil
@@ -14,16 +15,20 @@ import sensitivity as S  # noqa: E402
 
 def main():
     args = sys.argv[1:]
+    folder = "seeded"
+    if args and args[0] == "--benign":
+        folder = "benign"
+        args = args[1:]
     shard = None
     if args and args[0] == "--shard":
         i, n = args[1].split("/")
         shard = (int(i), int(n))
         args = args[2:]
-    names = args or sorted(os.listdir(os.path.join(HERE, "seeded")))
+    names = args or sorted(os.listdir(os.path.join(HERE, folder)))
     if shard:
         names = [x for k, x in enumerate(names) if k % shard[1] == shard[0]]
     for name in names:
-        src = os.path.join(HERE, "seeded", name)
+        src = os.path.join(HERE, folder, name)
         patch = os.path.join(src, "patch.diff")
         if not os.path.exists(patch):
             continue
@@ -40,6 +45,14 @@ def main():
             rc, out = S.run_check(d, prop, "quick", "1")
         finally:
             shutil.rmtree(d, ignore_errors=True)
+        if folder == "benign":
+            verdict = {0: "quiet", 1: "ALARM"}.get(rc, f"harness-error rc={rc}")
+            old = meta.get("verified", {}).get("check")
+            print(f"{name}: {verdict}" + ("" if old == verdict else f"   (was: {old})"), flush=True)
+            meta.setdefault("verified", {})["check"] = verdict
+            with open(os.path.join(src, "meta.json"), "w") as f:
+                json.dump(meta, f, indent=1)
+            continue
         verdict = "caught" if rc == 1 else ("missed" if rc == 0 else f"harness-error rc={rc}")
         old = meta.get("verified", {}).get("checks", {}).get(prop)
         lines = [l[:300] for l in out.splitlines() if l.startswith("VIOLATION") or l.startswith("  sub=")][:2]
